@@ -18,8 +18,8 @@ CLAIM = ("Partial by nature (DESIGN.md §3 C10, §9): byte identity across proce
          "from src/*.rs, Cargo.toml and Cargo.lock on every run has no randomly seeded hash container, no run-time read of the "
          "environment / clock / thread or process id / pointer value / RNG, and the direct hashbrown requirement is the fixed-key 0.13 "
          "line; hash_impls_paired — every type with a hand-written Hash impl also has a hand-written PartialEq (a hand-written Hash next to a "
-         "derived order-insensitive equality on the key of a randomly seeded IndexSet is the defect repaired in 131db37) (all decided by the "
-         "kernel on the current inventory). Observed: the real binary is run in fresh processes (quick 6, thorough "
+         "derived order-insensitive equality on the key of a randomly seeded IndexSet is the defect repaired in 131db37), eq_impls_paired — and conversely no type compares by hand while its Hash is derived (all decided by the "
+         "kernel on the current inventory); minimised_size_schedule_irrelevant — two iteration orders of the minimiser give automata of the same size and language (both are smallest automata of that language, C03). Observed: the real binary is run in fresh processes (quick 6, thorough "
          "24) with differing environments (env -i + differing HOME/LANG/RUST_BACKTRACE, hundreds of junk variables that move the stack, "
          "every environment-variable name the source mentions set to junk in half of the runs, ASLR on) for the bundled examples and "
          "random large grammars (many states, several commands that occur only inside words in different within-word automata, "
